@@ -73,6 +73,12 @@ def track_mixed():
     return t
 
 
+def track1():
+    t = Track()
+    t.add_bar(bar2())
+    return t
+
+
 def track2(instr=None):
     t = Track(instr)
     t.add_bar(bar2())
@@ -151,9 +157,9 @@ GLOBAL = {
     "control": lambda: [7],
     "bar": lambda: [bar2(), bar_rest()],
     "bars": lambda: [[bar2(), bar2()]],
-    "channels": lambda: [[1, 2]],
+    "channels": lambda: [[1, 2], [1, 2, 9]],
     "track": lambda: [track2(), track_rest(), track_mixed()],
-    "tracks": lambda: [[track2(), track2()]],
+    "tracks": lambda: [[track2(), track2()], [track2(), track1(), track2()]],
     "composition": lambda: [comp2()],
     "nc": lambda: [NoteContainer(["C", "E"])],
     "notecontainer": lambda: [NoteContainer(["C", "E"])],
@@ -191,7 +197,9 @@ OWNER = {
     ("core.chords", "shorthand_string"): lambda: ["Cm7", ["Cm7", "G7"], ["Am/G", "Dm|G", "NC"]],
     ("core.progressions", "progression"): lambda: [["I", "IV", "V7"], ["Im7", "V"], ["VIIdim7"], ["IM7", "bIIdim"], "I"],
     ("core.progressions", "chord"): lambda: [["C", "E", "G"], [["C", "E", "G"], ["G", "B", "D", "F"]], ["C", "E", "G", "B"],
-                                             ["C", "E", "G", "B", "D"]],
+                                             ["C", "E", "G", "B", "D"],
+                                             # one chord with two readings (C6 / A minor) in its three rotations
+                                             ["C", "E", "A"], ["A", "C", "E"], ["E", "A", "C"], ["F", "A", "C", "D"], ["D", "F", "A", "C"]],
     ("core.progressions", "prog_tuple"): lambda: [("I", 0, "7")],
     ("core.progressions", "substitute_index"): lambda: [0],
     ("core.progressions", "ignore_suffix"): lambda: [False, True],
